@@ -117,7 +117,7 @@ def make_replay(verif, pid, r, oid):
     inputs = harness_inputs(trace)
     fam = family_of(u.id)
     native = None
-    if fam and (inputs or oid.endswith('.reachability.normal_return') or fam.get('src') in ('replay_bt.cpp', 'replay_fp.cpp', 'replay_c16.cpp', 'replay_c16f.cpp', 'replay_gz.cpp')):
+    if fam and (inputs or oid.endswith('.reachability.normal_return') or fam.get('src') in ('replay_bt.cpp', 'replay_fp.cpp', 'replay_ili.cpp', 'replay_c16.cpp', 'replay_c16f.cpp', 'replay_gz.cpp')):
         native = run_native(verif, fam, u.id, inputs)
     confirmed = bool(native and native.get('ran') and native.get('misbehaves'))
     fn = re.sub(r'[^A-Za-z0-9_.@-]', '_', '%s-%s-%s.json' % (pid, uid, oid))
@@ -348,6 +348,8 @@ FAMILIES['w.'] = {'name': 'w', 'custom': writer_replay}
 
 
 FAMILIES['bt.eqhash.MalformedMessageData'] = {'name': 'bt', 'src': 'replay_bt.cpp', 'argv': lambda u, i: []}
+
+FAMILIES['r.IndexListItem'] = {'name': 'ili', 'src': 'replay_ili.cpp', 'argv': lambda u, i: []}
 
 FAMILIES['r.FilePreamble'] = {'name': 'fp', 'src': 'replay_fp.cpp', 'argv': lambda u, i: []}
 
